@@ -14,6 +14,7 @@ type verdict struct {
 	what    string
 	outcome string // coverage label
 	reached bool   // the authenticator was consulted on a request that carries some credential
+	seen    string // what the real pipeline did (replay output)
 }
 
 func fail(class, format string, a ...any) verdict {
@@ -59,6 +60,8 @@ func checkUnit(c Case) verdict {
 	if err != nil {
 		return fail("client-build-error", "CreateHttpRequest: %v", err)
 	}
+	// classification aid only: did the client put the default credential's slot on the request at all
+	defaultSlot := c.Client.Default != nil && slotPresent(creq, c.Client.Default)
 	var sreq *http.Request
 	var raw []byte
 	if c.Wire {
@@ -73,11 +76,41 @@ func checkUnit(c Case) verdict {
 	}
 	rec := newRecorder(c.Server.CB)
 	obs := authenticate(c.Server, sreq, rec)
-	return judge(c.Client, c.Server, abs, exp, rec, obs, raw)
+	v := judge(c.Client, c.Server, abs, exp, rec, obs, raw, defaultSlot)
+	if verbose {
+		var calls []string
+		for _, k := range obs.calls {
+			calls = append(calls, showCall(k))
+		}
+		want, _ := rec.answer()
+		v.seen = fmt.Sprintf("applies=%v principal=%#v (callback's: %#v) error=%v callback calls=%q FailedBasicAuth=%q OAuth2SchemeName=%q ctx-value-from-callback-on-request=%v",
+			obs.applies, obs.principal, want, obs.err, calls, obs.failedRealm, obs.schemeName, obs.ctxOut)
+		if raw != nil {
+			v.seen += fmt.Sprintf("\n  wire: %q", raw)
+		}
+	}
+	return v
+}
+
+var verbose bool // replay mode
+
+// slotPresent: the header or query parameter the credential is written to exists on the client's request.
+func slotPresent(req *http.Request, c *Cred) bool {
+	switch c.Kind {
+	case "basic", "bearer":
+		return req.Header.Get("Authorization") != ""
+	case "apikey":
+		if c.In == "header" {
+			return len(req.Header.Values(string(c.Name))) > 0
+		}
+		_, ok := req.URL.Query()[string(c.Name)]
+		return ok
+	}
+	return false
 }
 
 // judge compares the observation with the expectation, clause by clause.
-func judge(cl *Client, s *Server, abs *absReq, exp expectation, rec *recorder, obs observation, raw []byte) verdict {
+func judge(cl *Client, s *Server, abs *absReq, exp expectation, rec *recorder, obs observation, raw []byte, defaultSlot bool) verdict {
 	kind := s.Kind
 	ctxt := func() string {
 		if raw != nil {
@@ -133,7 +166,7 @@ func judge(cl *Client, s *Server, abs *absReq, exp expectation, rec *recorder, o
 		if exp.applies == "may" {
 			return verdict{outcome: kind + ":may-not-applicable(" + mayKey(exp.why) + ")", reached: true}
 		}
-		if fromDefault(cl, abs, s, exp) {
+		if fromDefault(cl, abs, s, exp) && !defaultSlot {
 			return fail("default-auth/not-applied", "%s authenticator: not applicable, but the transport-wide default credential had to be attached (operation has no credential of its own, no Authorization header set)%s", kind, ctxt())
 		}
 		return fail("na-with-credential/"+kind+bearerPlace(kind, abs), "%s authenticator: not applicable, expected %s (%s)%s", kind, showExp(kind, exp), exp.why, ctxt())
